@@ -219,3 +219,89 @@ Print Assumptions c02_typing_example.
 Print Assumptions c02_core_validator_decides_the_declarative_typing.
 Print Assumptions c02_core_validator_accepts_the_emitted_body.
 Print Assumptions c02_core_validator_sound_for_the_emitted_body.
+
+(* ---- TYPE SAFETY of the concrete machine (Model/SemCore.v) with respect to that validator (Proofs/TypeSafety.v): typing (C02) and
+   semantics (C01) of a body tied together.  A body the validator accepts, run from the empty stack in a state whose locals / globals are
+   bound to values of their declared types ([st_ok], identity slot maps, the type table of the environment), NEVER GOES WRONG (stack
+   underflow, operand of the wrong type, unbound or ill-typed slot, wrong memory slot, operator outside the core: [Stop Wrong]) and is never
+   [Stuck]; it falls through with exactly the results, branches to the function label / returns with the results on top, traps (a genuine
+   WebAssembly trap) or runs out of fuel.  EVERY accepted body: blocks, loops, ifs, br / br_if / br_table with exact unwinding, dead code.
+   The same for the emitted body (the normal form of the round trip). *)
+From WV Require Import Model.Sem Model.SemCore Proofs.TypeSafety.
+Theorem c02_accepted_bodies_never_go_wrong : forall (e : tenv) (body : list rt) (s0 : SemCore.st),
+  check_body e body = true -> st_ok e s0 -> stk s0 = [] -> labs s0 = [] ->
+  forall fuel : nat,
+    match run_core id id id (tys_of e) fuel body s0 with
+    | Fall s => st_ok e s /\ labs s = [] /\ has_types (stk s) (te_results e)
+    | Br d s => st_ok e s /\ d = 0%nat /\ labs s = [] /\ exists vs rest, stk s = vs ++ rest /\ has_types vs (te_results e)
+    | Stop Return s => st_ok e s /\ exists vs rest, stk s = vs ++ rest /\ has_types vs (te_results e)
+    | Stop Trap s => st_ok e s
+    | Stop Wrong _ => False
+    | Stuck => False
+    | Fuel => True
+    end.
+Proof. exact type_safety. Qed.
+
+Theorem c02_emitted_bodies_never_go_wrong : forall (e : tenv) (body : list rt) (s0 : SemCore.st),
+  check_body e body = true -> st_ok e s0 -> stk s0 = [] -> labs s0 = [] ->
+  forall fuel : nat,
+    match run_core id id id (tys_of e) fuel (fst (nf_rt_list false body)) s0 with
+    | Fall s => st_ok e s /\ labs s = [] /\ has_types (stk s) (te_results e)
+    | Br d s => st_ok e s /\ d = 0%nat /\ labs s = [] /\ exists vs rest, stk s = vs ++ rest /\ has_types vs (te_results e)
+    | Stop Return s => st_ok e s /\ exists vs rest, stk s = vs ++ rest /\ has_types vs (te_results e)
+    | Stop Trap s => st_ok e s
+    | Stop Wrong _ => False
+    | Stuck => False
+    | Fuel => True
+    end.
+Proof. exact emitted_body_is_safe. Qed.
+
+(* the per-operator fact behind it, for all 98 operators of the core *)
+Theorem c02_core_operators_never_go_wrong : forall (e : tenv) (o : wop) (ins outs : list valty) (s : SemCore.st) (top rest : list val),
+  core_optype e (WOp o) ins outs -> st_ok e s -> stk s = top ++ rest -> has_types top ins ->
+  match core_sem (fun i => i) (fun i => i) (fun i => i) (WOp o) s with
+  | Next s' => st_ok e s' /\ labs s' = labs s /\ exists vr, stk s' = vr ++ rest /\ has_types vr outs
+  | Halt Trap s' => st_ok e s'
+  | Halt _ _ => False
+  end.
+Proof. exact op_safe. Qed.
+
+(* the premise [st_ok] is satisfiable by ANY assignment of values of the declared types *)
+Theorem c02_well_typed_initial_states_exist : forall (e : tenv) (lv gv k : list val) (lb : list N) (m : list (N * N)) (p mx : N),
+  Forall2 val_ty lv (te_locals e) -> Forall2 val_ty gv (map fst (te_globals e)) ->
+  st_ok e {| stk := k; locs := bind_from 0 lv; globs := bind_from 0 gv; labs := lb; mem := m; pages := p; max_pages := mx |}.
+Proof. exact st_ok_bind. Qed.
+
+(* C01 + C02: the body AS EMITTED - normal form, every operator and block type re-encoded, i.e. the tree whose flattening is the emitted
+   operator stream - run on the RENUMBERED slots and the OUTPUT type table never goes wrong either: it behaves exactly as the input body
+   (c01_integer_core_instance).  Beyond acceptance only 32-bit offsets are asked (the model's validator does not bound the offset and
+   walrus truncates it: c01_truncated_offset_changes_behaviour); alignment and decodability follow from acceptance. *)
+From WV Require Import Proofs.Sem Proofs.ModFix10 Proofs.SemCore.
+Theorem c02_emitted_renumbered_bodies_never_go_wrong :
+  forall (cx : pctx) (ecx : ectx) (lslot' gslot' mslot' : N -> N) (tys' : N -> option (list valty * list valty))
+         (e : tenv) (body : list rt) (s0 : SemCore.st),
+  (forall i, lslot' (rl cx ecx i) = i) ->
+  (forall i, gslot' (rg cx ecx i) = i) ->
+  (forall i, mslot' (rm cx ecx i) = i) ->
+  (forall i, tys_of e i = bt_tys cx (BT_Func i)) ->
+  (forall i ps rs, tys_of e i = Some (ps, rs) -> existing cx ps rs <> None) ->
+  (forall ps rs ty, find_type cx ps rs = Some ty -> tys' (ex_id2i ecx S_type ty) = Some (ps, rs)) ->
+  check_body e body = true -> (forall o, In o (ops_of body) -> offset_ok o = true) ->
+  st_ok e s0 -> stk s0 = [] -> labs s0 = [] ->
+  forall fuel : nat,
+    match run_core lslot' gslot' mslot' tys' fuel (map (ren_t cx ecx) (fst (nf_rt_list false body))) s0 with
+    | Fall s => st_ok e s /\ labs s = [] /\ has_types (stk s) (te_results e)
+    | Br d s => st_ok e s /\ d = 0%nat /\ labs s = [] /\ exists vs rest, stk s = vs ++ rest /\ has_types vs (te_results e)
+    | Stop Return s => st_ok e s /\ exists vs rest, stk s = vs ++ rest /\ has_types vs (te_results e)
+    | Stop Trap s => st_ok e s
+    | Stop Wrong _ => False
+    | Stuck => False
+    | Fuel => True
+    end.
+Proof. exact emitted_renamed_body_is_safe. Qed.
+
+Print Assumptions c02_accepted_bodies_never_go_wrong.
+Print Assumptions c02_emitted_bodies_never_go_wrong.
+Print Assumptions c02_core_operators_never_go_wrong.
+Print Assumptions c02_well_typed_initial_states_exist.
+Print Assumptions c02_emitted_renumbered_bodies_never_go_wrong.
